@@ -88,6 +88,64 @@ static void run_phrases(uint64_t idx, pv_rng* rng) {
     pv_gstr_free(&g);
 }
 
+/* valid Spanish/French phrases blown up with redundant combining accents in the middle so that the decomposed form
+ * has an exact length around the buffer size and the last token ends on the very last byte */
+static uint64_t n_flood(void) { return pv_scaled(6000, 200000); }
+static void run_flood(uint64_t idx, pv_rng* rng) {
+    pv_mlang* L = pv_lang_by_name(idx & 1 ? "French" : "Spanish");
+    if (!L || !L->lib) return;
+    pv_mseed m; pv_gen_mseed(rng, 3, true, &m);
+    unsigned coin = pv_gen_coin(rng), d[16]; pv_m_coeffs(&m, coin, d);
+    long target = (long)POLYSEED_STR_SIZE - 7 + (long)pv_randn(rng, 10);          /* STR_SIZE-7 .. STR_SIZE+2 */
+    char tok[16][96]; long len = 15;
+    for (int i = 0; i < 16; ++i) {
+        /* abbreviate some words to 4..n letters (always accent-free tails for the last word so that it ends in a plain letter) */
+        const uint32_t* cp = L->cp[d[i]]; int n = L->ncp[d[i]]; int nl = L->nscp[d[i]];
+        int keep = (pv_randn(rng, 2) && nl > 4) ? 4 + (int)pv_randn(rng, (uint32_t)(nl - 3)) : nl;
+        int letters = 0; size_t k = 0;
+        for (int c = 0; c < n; ++c) { bool acc = pv_is_accent(cp[c]); if (!acc) { if (letters == keep) break; ++letters; } else if (i == 15 && letters == keep) break; k += (size_t)pv_utf8_encode(cp[c], tok[i] + k); }
+        /* drop a trailing accent of the last token so that its final byte is a plain letter */
+        if (i == 15) while (k >= 2 && (unsigned char)tok[i][k - 2] == 0xCC) k -= 2;
+        tok[i][k] = 0; len += (long)k;
+    }
+    long need = target - len;
+    if (need < 0) return;
+    if (need & 1) { /* accents are two bytes: fix the parity with one extra plain letter that keeps the token a valid prefix?  not possible in general -> use a 3-byte... */
+        /* U+0301 is 2 bytes; parity is repaired by dropping one letter from a token that has more than 4 letters kept */
+        bool fixed = false;
+        for (int i = 0; i < 15 && !fixed; ++i) { size_t k = strlen(tok[i]); uint32_t cps[64]; int nc = pv_utf8_decode(tok[i], cps, 64); int letters = 0; for (int c = 0; c < nc; ++c) if (!pv_is_accent(cps[c])) ++letters;
+            if (letters > 4 && (unsigned char)tok[i][k - 1] < 0x80) { tok[i][k - 1] = 0; fixed = true; } }
+        if (!fixed) return;
+        need += 1;
+    }
+    int flood_tok = 3 + (int)pv_randn(rng, 10);
+    char* ph = malloc((size_t)target + 64); size_t k = 0;
+    for (int i = 0; i < 16; ++i) {
+        size_t l = strlen(tok[i]);
+        if (i == flood_tok) { /* accents go after the first letter (and its own accents) */
+            size_t cut = 1; while (cut < l && ((unsigned char)tok[i][cut] == 0xCC || ((unsigned char)tok[i][cut] & 0xC0) == 0x80)) ++cut;
+            memcpy(ph + k, tok[i], cut); k += cut;
+            for (long a = 0; a < need / 2; ++a) { ph[k++] = (char)0xCC; ph[k++] = (char)(0x80 + pv_randn(rng, 4)); }
+            memcpy(ph + k, tok[i] + cut, l - cut); k += l - cut;
+        } else { memcpy(ph + k, tok[i], l); k += l; }
+        if (i < 15) ph[k++] = ' ';
+    }
+    ph[k] = 0;
+    char* nf = pv_nfkd_alloc(ph); size_t nfl = strlen(nf); free(nf);
+    pv_countf(1, "flood.nfkd_length.size%+ld", (long)nfl - (long)POLYSEED_STR_SIZE);
+    PV_COUNT("flood.phrases", 1);
+    phrase_calls(ph, k, coin, (int)(L - pv_langs), "accent-flood-to-exact-length", rng, idx % 4 == 1, false);
+    /* those that fit must still decode to the seed (redundant accents are ignored) */
+    if (nfl < POLYSEED_STR_SIZE) {
+        char* in = pv_exact_str(ph); polyseed_data* s = NULL;
+        int st = pv_api_decode_explicit(in, coin, L->lib, &s);
+        if (st == POLYSEED_OK) { PV_COUNT("flood.decoded_ok", 1); pv_api_free(s); }
+        free(in);
+    }
+    if (idx < 2) pv_sample("flood", "%s: %zu bytes (NFKD %zu) with %ld redundant accents in token %d", L->name_en, k, nfl, need / 2, flood_tok + 1);
+    free(ph);
+}
+
 static uint64_t n_passwords(void) { return pv_scaled(40000, 1000000); }
 static void run_passwords(uint64_t idx, pv_rng* rng) {
     pv_mseed m; pv_gen_mseed(rng, 3, true, &m);
@@ -143,6 +201,6 @@ static void run_buffers(uint64_t idx, pv_rng* rng) {
 }
 
 int main(int argc, char** argv) {
-    static const pv_section secs[] = { { "phrases", n_phrases, run_phrases }, { "passwords", n_passwords, run_passwords }, { "buffers", n_buffers, run_buffers } };
-    return pv_main(argc, argv, "C14", secs, 3, init, NULL);
+    static const pv_section secs[] = { { "phrases", n_phrases, run_phrases }, { "flood", n_flood, run_flood }, { "passwords", n_passwords, run_passwords }, { "buffers", n_buffers, run_buffers } };
+    return pv_main(argc, argv, "C14", secs, 4, init, NULL);
 }
